@@ -43,7 +43,22 @@ ValidCase(c) == /\ c.form # "dec" => c.retry = 0
 
 Table == { [in |-> c, out |-> Expected(c)] : c \in {x \in Cases : ValidCase(x)} }
 
+\* ---- C18: generator sessions that write before suspending --------------------------------------------------------
+\* The body writes (segment 1), then does commit() / flush() / nothing, yields, is resumed, writes again (segment 2)
+\* and ends with `final`.  A generator may be suspended only with nothing unflushed and no open transaction
+\* ("You need to manually commit() changes before suspending the generator"): otherwise the session ends there with
+\* TransactionError and nothing committed.  While it is suspended other sessions of the same thread run and commit
+\* independently of it.
+GenCases == { [imm |-> m, end1 |-> e, final |-> f] :
+                m \in BOOLEAN, e \in {"commit", "flush", "none"}, f \in {"return", "other", "base"} }
+GenExpected(c) ==
+    IF c.end1 = "commit"
+    THEN [ suspended |-> TRUE, committed |-> IF c.final = "return" THEN {1, 2} ELSE {1},
+           exc |-> IF c.final = "return" THEN "none" ELSE c.final ]
+    ELSE [ suspended |-> FALSE, committed |-> {}, exc |-> "txerr" ]
+GenTable == { [in |-> c, out |-> GenExpected(c)] : c \in GenCases }
+
 ASSUME JsonSerialize(IOEnv.OUT,
          [ calls |-> DbApiCalls, shapes |-> SessionShapes, forms |-> AllForms, kinds |-> AllKinds,
-           outcomes |-> BodyOutcomes, threads |-> ThreadCounts, forkpoints |-> ForkPoints, c18 |-> Table ])
+           outcomes |-> BodyOutcomes, threads |-> ThreadCounts, forkpoints |-> ForkPoints, c18 |-> Table, c18gen |-> GenTable ])
 =============================================================================
